@@ -475,6 +475,145 @@ theorem server_panic_only_time_fudge {sg : Signer} {buf : Bytes} {rdok : Bool} {
         · simp at h3
         · simp at h3
 
+/-! ### the record whose MAC is verified is `request.signature()` -/
+
+theorem locateSig_reads {buf : Bytes} {h : Hdr} {pos : Nat} {rdok : Bool} {s : SigRec}
+    (hl : locateSig buf h pos rdok = .ok s) :
+    ∃ p1 x y p2 z q e,
+      readRecords buf false (h.opcode == 5) (h.an + h.ns) pos none none = .ok (p1, x, y) ∧
+      readRecords buf true (h.opcode == 5) (h.ar - 1) p1 none none = .ok (p2, none, z) ∧
+      readRecords buf true (h.opcode == 5) 1 p2 none none = .ok (q, some s, e) := by
+  unfold locateSig at hl
+  split at hl
+  · simp at hl
+  · split at hl
+    · simp at hl
+    · split at hl
+      · rename_i p1 x y h1
+        split at hl
+        · rename_i p2 sig2 z h2
+          split at hl
+          · simp at hl
+          · rename_i hn
+            have : sig2 = none := by cases sig2 <;> simp_all
+            subst this
+            split at hl
+            · rename_i q s' e h3
+              simp only [Outcome.ok.injEq] at hl; subst hl
+              exact ⟨p1, x, y, p2, z, q, e, h1, h2, h3⟩
+            · simp at hl
+            · simp at hl
+            · simp at hl
+        · simp at hl
+        · simp at hl
+      · simp at hl
+      · simp at hl
+
+/-- one `read_records` step from `sig = None`: the TSIG it returns does not depend on the EDNS
+state it was started with -/
+theorem readRecords_one_edns {buf : Bytes} {upd : Bool} {p q q' : Nat} {s s' : SigRec}
+    {z e e' : Option Nat}
+    (h : readRecords buf true upd 1 p none none = .ok (q, some s, e))
+    (h' : readRecords buf true upd 1 p none z = .ok (q', some s', e')) : s = s' := by
+  rw [readRecords] at h h'
+  split at h
+  · rename_i f hf
+    rw [hf] at h'
+    simp only at h'
+    split at h
+    · rename_i td htd
+      rw [htd] at h'
+      simp only at h'
+      split at h
+      · rename_i sg ed hstep
+        split at h'
+        · rename_i sg' ed' hstep'
+          simp only [readRecords, Outcome.ok.injEq, Prod.mk.injEq] at h h'
+          obtain ⟨_, rfl, _⟩ := h
+          obtain ⟨_, rfl, _⟩ := h'
+          unfold recStep at hstep hstep'
+          split at hstep
+          · simp at hstep
+          · rename_i hc1
+            rw [if_neg hc1] at hstep'
+            split at hstep
+            · simp at hstep
+            · rename_i hc2
+              rw [if_neg hc2] at hstep'
+              split at hstep
+              · simp at hstep
+              · rename_i hc3
+                rw [if_neg hc3] at hstep'
+                split at hstep
+                · simp at hstep
+                · rename_i hc4
+                  rw [if_neg hc4] at hstep'
+                  split at hstep
+                  · simp only [Option.some.injEq, Prod.mk.injEq] at hstep hstep'
+                    rw [← hstep.1, ← hstep'.1]
+                  · split at hstep
+                    · split at hstep <;> simp at hstep
+                    · simp at hstep
+        · simp at h'
+      · simp at h
+    · simp at h
+    · simp at h
+  · simp at h
+  · simp at h
+
+/-- **The TSIG record that `verify_message_byte` checks is `request.signature()`**: the record the
+key is looked up by and the record whose MAC, algorithm and times are checked are the same. -/
+theorem verified_record_is_request_signature {buf : Bytes} {rdok : Bool} {req : Req}
+    {tsig r : SigRec} {prev : Option Bytes} {first : Bool} {t : Bytes}
+    (hreq : parseRequest buf rdok = .ok req) (hs : req.sig = some tsig)
+    (hv : signedBitmessageToBuf buf prev first rdok = .ok (t, r)) : r = tsig := by
+  obtain ⟨hh, hqd, pos, p1, p2, p3, sgr, ed, _, _, hq, h1, h2, h3, _, _⟩ :=
+    parseRequest_sections hreq
+  have hsg : sgr = some tsig := by
+    unfold parseRequest at hreq
+    rw [hh] at hreq
+    simp only [hqd] at hreq
+    simp only [hqd, skipQueries] at hq
+    split at hq
+    · rename_i n t' c' p' hq'
+      simp only [Outcome.ok.injEq] at hq; subst hq
+      rw [hq'] at hreq
+      simp only [ne_eq, not_true_eq_false, ↓reduceIte] at hreq
+      split at hreq
+      · simp at hreq
+      · rw [h1] at hreq; simp only at hreq
+        rw [h2] at hreq; simp only at hreq
+        rw [h3] at hreq
+        simp only [Outcome.ok.injEq] at hreq
+        rw [← hreq] at hs; simpa using hs
+    · simp at hq
+    · simp at hq
+  subst hsg
+  unfold signedBitmessageToBuf at hv
+  rw [hh] at hv
+  simp only at hv
+  split at hv
+  · simp at hv
+  · rename_i har
+    rw [hq] at hv
+    simp only at hv
+    split at hv
+    · rename_i s' hl
+      simp only [Outcome.ok.injEq, Prod.mk.injEq] at hv
+      obtain ⟨_, rfl⟩ := hv
+      obtain ⟨q1, x, y, q2, z, q, e, g1, g2, g3⟩ := locateSig_reads hl
+      have a := readRecords_append buf false (req.hdr.opcode == 5) req.hdr.ns req.hdr.an pos none none
+      rw [h1] at a; simp only at a; rw [h2] at a
+      rw [a] at g1
+      simp only [Outcome.ok.injEq, Prod.mk.injEq] at g1
+      obtain ⟨rfl, _, _⟩ := g1
+      have e1 : req.hdr.ar = (req.hdr.ar - 1) + 1 := by omega
+      rw [e1, readRecords_append, g2] at h3
+      simp only at h3
+      exact readRecords_one_edns g3 h3
+    · simp at hv
+    · simp at hv
+
 /-! ### witnesses -/
 
 /-- header (UPDATE, QD = 1, AR = `ar`) ‖ zone `. SOA IN` ‖ `extra` ‖ a TSIG RR owned by `.` with
